@@ -20,6 +20,7 @@ UNITS = {
     "u20_chunkparse": {"verus": "specs/u20_chunkparse.vt.rs"},
     "u21_patchlog_tx": {"verus": "specs/u21_patchlog_tx.vt.rs"},
     "u22_loadnext": {"verus": "specs/u22_loadnext.vt.rs"},
+    "u23_exid_order": {"verus": "specs/u23_exid_order.vt.rs"},
 }
 CHUNK = "rust/automerge/src/storage/chunk.rs"
 EXID = "rust/automerge/src/exid.rs"
@@ -217,7 +218,7 @@ PROPERTIES.update({
         "level": "proof",
         "verus": [("u04_ids", ["exid_to_opid", "get_actor_safe", "new", "remove_actor", "rewrite_with_new_actor", "with_new_actor", "without_actor", "actor"]),
                   ("u16_autocommit", ["ensure_transaction_open", "ensure_transaction_closed", "commit_with", "empty_change", "set_actor", "load_incremental", "apply_changes", "apply_changes_batch", "merge", "save_with_options", "fork"]),
-                  ("u18_actor_table", "*")],
+                  ("u18_actor_table", "*"), ("u23_exid_order", "*")],
         "kani": ["u04_opid_order", "u04_opid_actor_shift", "u04_opid_new"],
         "not_under_contract": ["<[ActorId]>::binary_search (std contract assumed; OpSet::lookup_actor is proved against it in U18)", "OpSet::rewrite_with_new_actor / ChangeGraph::insert_actor column rewrites (assumed: shift exactly the stored indices >= idx)", "get_obj_meta", "PatchLog::migrate_actors loop"],
         "assumptions": ["a document has at most u32::MAX actors"],
